@@ -291,6 +291,53 @@ func init() {
 				}
 			}
 		}
+		// ---- (a5) ONE caller-owned *os.File reused for every reopen --------------------------------
+		// blockstore.OpenReadWriteFile(f) -> puts -> Discard / Finalize -> OpenReadWriteFile(f) again,
+		// 2..4 reopen cycles on the same handle (kind 5), also with the caller leaving the handle's
+		// cursor at the end / somewhere inside the file before each reopen (kind 6).  The model is the
+		// blockstore reopened by path: where the handle's cursor stands must not matter.
+		{
+			r := c.R.Fork()
+			padded := defaultWOpts
+			padded.dpad, padded.ipad = 7, 3
+			v1o := defaultWOpts
+			v1o.v1 = true
+			alpha := genBlocks(r, 5, genOpts{identity: false, maxData: 60})
+			roots := []cid.Cid{alpha[0].Cid}
+			for _, o := range []wOpts{defaultWOpts, padded, v1o} {
+				for _, kind := range []uint64{5, 6} {
+					for cycles := 2; cycles <= 4; cycles++ {
+						for _, pat := range []string{"discard", "finalize", "alternate"} {
+							var segs []crSeg
+							var all []Blk
+							for i := 0; i < cycles; i++ {
+								cut := pat
+								if pat == "alternate" {
+									cut = []string{"discard", "finalize"}[i%2]
+								}
+								bl := []Blk{alpha[i%len(alpha)]}
+								if i == 1 {
+									bl = nil // a process that puts nothing
+								}
+								all = append(all, bl...)
+								segs = append(segs, crSeg{cut: cut, blks: bl})
+							}
+							last := []Blk{alpha[4]}
+							all = append(all, last...)
+							plain, ok := c12PlainFinal(c.Work, kind, o, roots, all)
+							if !ok {
+								continue
+							}
+							c12EmitSegs(c, kind, o, roots, segs, last, plain, "same-handle")
+						}
+					}
+					// refusals on the same handle leave the file untouched, too
+					for _, cut := range []string{"discard", "finalize"} {
+						c12EmitMismatch(c, kind, o, roots, alpha[:2], cut, o, []cid.Cid{alpha[1].Cid}, "same-handle-roots")
+					}
+				}
+			}
+		}
 		// ---- (b) mismatching reopen ------------------------------------------------------------
 		nBase := 6 * c.Scale
 		for i := 0; i < nBase; i++ {
